@@ -46,6 +46,7 @@ class Source:
             raise AnalysisError(f"cannot lower {rel}: {e}")
         except SyntaxError as e:
             raise AnalysisError(f"cannot parse {rel}:{e.lineno}: {e.msg}")
+        localnames.orient_comparisons(self.tree)
         self._funcs = None
         self._classes = None
 
